@@ -138,8 +138,8 @@ def _closure_ret_atoms(P, f):
     return out
 
 
-def r2_ready_wake_agreement(ctx):
-    ctx.set_rule('C05.R2')
+def r2_ready_wake_agreement(ctx, rule='C05.R2'):
+    ctx.set_rule(rule)
     P = ctx.P
     fp = ctx.anchor('<%s as std::future::Future>::poll' % SLEEP)
     fb = ctx.anchor(TQ + '::bump')
